@@ -21,7 +21,7 @@ import re
 from dataclasses import dataclass, field
 from typing import Optional
 
-from rustscan import (ScanError, mask, locate, find_loops, match_close, line_of,
+from rustscan import (ScanError, mask, locate, find_loops, find_closures, match_close, line_of,
                       find_body_open, find_component, norm)
 
 
@@ -46,6 +46,7 @@ class Item:
     wrap: Optional[str] = None       # override for the wrapping impl header
     closure_as_fn: Optional[dict] = None  # rule 3.2-6, see extract_closure
     no_body_check: bool = False      # emit as external_body even in its own unit (assumed contract)
+    closures: dict = field(default_factory=dict)   # ordinal -> dict(params='n: i64', ret='res: bool', requires=[..], ensures=[(name, expr)])
 
 
 @dataclass
@@ -170,16 +171,38 @@ def extract_fn(src: Source, item: Item, stub=False):
         else:
             off = bo + m.end()
         inserts.append((off, [('\n' + htext.strip('\n') + '\n', 'hint', anchor)]))
+    if item.closures:
+        cls = find_closures(masked, bo, en)
+        for ordinal, spec in item.closures.items():
+            if ordinal < 1 or ordinal > len(cls):
+                raise ScanError('%s: closure #%d not found (%d closures)' % (item.id, ordinal, len(cls)))
+            p0, p1, b0, b1, braced = cls[ordinal - 1]
+            # header `|params|` is replaced by typed params + named return + ensures (checked by Verus against the body);
+            # an expression body is wrapped in braces
+            hdr = '|%s| -> (%s)' % (spec['params'], spec['ret'])
+            parts = [(hdr + '\n', 'closure-hdr', '')]
+            if spec.get('requires'):
+                parts.append(('    requires ' + ', '.join(spec['requires']) + ',\n', 'closure-hdr', ''))
+            if spec.get('ensures'):
+                parts.append(('    ensures\n', 'kw', ''))
+                for name, e in spec['ensures']:
+                    parts.append(('        %s,\n' % e, 'closure-ensures', 'closure%d.%s' % (ordinal, name)))
+            if not braced:
+                parts.append(('{ ', 'closure-hdr', ''))
+            inserts.append((p0, parts, p1))          # replaces text[p0:p1]
+            if not braced:
+                inserts.append((b1, [(' }', 'closure-hdr', '')]))
     inserts.sort(key=lambda t: t[0])
     cur = bo
-    for off, parts in inserts:
+    for ins in inserts:
+        off, parts = ins[0], ins[1]
         if off < cur:
             raise ScanError('%s: overlapping annotations' % item.id)
         if off > cur:
             segs.append(Seg(text[cur:off], item.id, 'body', '', item.source, line_of(text, cur)))
         for t, region, clause in parts:
             segs.append(Seg(t, item.id, region, clause))
-        cur = off
+        cur = ins[2] if len(ins) > 2 else off
     segs.append(Seg(text[cur:en] + '\n', item.id, 'body', '', item.source, line_of(text, cur)))
     if item.subst:
         for s in segs:
@@ -193,14 +216,15 @@ def enclosing_impl(src: Source, item: Item):
     """(header_text, is_trait_impl, impl_start, impl_body_open, impl_end) or None"""
     text, masked = src.get(item)
     chain = locate(text, masked, item.locator)
-    impls = [c for c in chain[:-1] if c[0].startswith('impl ') or c[0].startswith('trait ')]
+    impls = [c for c in chain[:-1] if c[0].startswith('impl') or c[0].startswith('trait ')]
     if not impls:
         return None
     comp, st, bo, en = impls[-1]
     # header starts at the `impl` keyword (skip attributes)
     k = masked.find('impl', st, bo) if comp.startswith('impl') else masked.find('trait', st, bo)
     header = text[k:bo].strip()
-    return header, (' for ' in norm(header).replace('for<', 'f0r<') or comp.startswith('trait')), st, bo, en
+    is_trait = bool(re.search(r'\bfor\b(?!\s*<)', masked[k:bo])) or comp.startswith('trait')
+    return header, is_trait, st, bo, en
 
 
 def extract_type(src: Source, item: Item):
